@@ -26,12 +26,24 @@ import (
 )
 
 // KindOf classifies a blob the way the retriever does: header first, else signed data.
-func KindOf(b []byte) string {
+func KindOf(b []byte) string { return KindOfP(nil)(b) }
+
+// KindOfP is KindOf for a chain with the given signature payload provider (nil: default).
+func KindOfP(provider types.SignaturePayloadProvider) func([]byte) string {
+	return func(b []byte) string { return kindOf(b, provider) }
+}
+
+func kindOf(b []byte, provider types.SignaturePayloadProvider) string {
 	var hp pb.SignedHeader
 	if proto.Unmarshal(b, &hp) == nil {
 		sh := new(types.SignedHeader)
-		if sh.FromProto(&hp) == nil && sh.ValidateBasic() == nil {
-			return "header"
+		if sh.FromProto(&hp) == nil {
+			if provider != nil {
+				sh.SetCustomVerifier(provider)
+			}
+			if sh.ValidateBasic() == nil {
+				return "header"
+			}
 		}
 	}
 	var sd types.SignedData
@@ -77,7 +89,7 @@ func New(o world.NodeOpts) (*World, error) {
 	if err != nil {
 		return nil, err
 	}
-	p.DA.KindOf = KindOf
+	p.DA.KindOf = KindOfP(p.Opts.Payload())
 	w := &World{P: p, dabt: p.Opts.DABlockTime}
 	p.Exec.Sampler = func() uint64 { return w.P.N.M.GetDAIncludedHeight() }
 	w.start()
@@ -277,8 +289,11 @@ func (w *World) DecodeStored() []DecodedBlob {
 		var hp pb.SignedHeader
 		if proto.Unmarshal(sb.Blob, &hp) == nil {
 			sh := new(types.SignedHeader)
-			if sh.FromProto(&hp) == nil && sh.ValidateBasic() == nil {
-				d.Kind, d.Header = "header", sh
+			if sh.FromProto(&hp) == nil {
+				sh.SetCustomVerifier(w.P.Opts.Payload())
+				if sh.ValidateBasic() == nil {
+					d.Kind, d.Header = "header", sh
+				}
 			}
 		}
 		if d.Kind == "other" {
@@ -289,7 +304,7 @@ func (w *World) DecodeStored() []DecodedBlob {
 		}
 		if d.Header != nil {
 			d.Key = string(d.Header.Hash())
-			payload, _ := d.Header.Header.MarshalBinary()
+			payload, _ := w.P.Opts.Payload()(&d.Header.Header)
 			ok, err := w.P.N.PubKey.Verify(payload, d.Header.Signature)
 			d.SigOK = err == nil && ok
 		}
@@ -455,7 +470,7 @@ func (w *World) CheckC06(when string) *world.Problem {
 		hs := []uint64{}
 		kind := ""
 		for _, bl := range c.Blobs {
-			k := KindOf(bl)
+			k := kindOf(bl, w.P.Opts.Payload())
 			if kind == "" {
 				kind = k
 			} else if kind != k {
